@@ -241,13 +241,20 @@ type PosReader struct {
 	FailAt int // -1 = never
 	Mode   string
 	Hit    bool
+	// Err, if set, is the error of Mode "transient": returned once (with no data) when FailAt bytes have been
+	// delivered; the following reads deliver the rest of the data as if nothing had happened.
+	Err error
 }
 
 func (r *PosReader) Read(p []byte) (int, error) {
 	if len(p) == 0 {
 		return 0, nil
 	}
-	if r.Mode == "stall" {
+	if r.Mode == "transient" && r.Pos == r.FailAt && !r.Hit {
+		r.Hit = true
+		return 0, r.Err
+	}
+	if r.Mode == "stall" || r.Mode == "transient" {
 		// one Read issued when exactly FailAt bytes have been delivered answers (0, nil); the stream is complete
 		if r.Pos == r.FailAt && !r.Hit {
 			r.Hit = true
